@@ -1,7 +1,133 @@
 import Driver.Util
-/- Sub-protocol `C01`: not built yet. -/
-namespace Driver.C01
+import ZxVerif.Model.Z80.RecBus
+import ZxVerif.Extracted.Z80Tables
+/-
+Sub-protocol `C01` (shared by C02 and C03): the Z80 reference model behind a recording bus.
 
-def proto : Driver.Proto := { σ := Unit, init := (), handle := fun s _ => (s, "unimplemented") }
+  x <state> <seed> <lines> <bus> <io> <mem>   load a CPU state and a bus, run ONE `emulate` (reference, `Variant.hw`)
+  c <state> <seed> <lines> <bus> <io> <mem>   the same with `Variant.code` (rustzx's MEMPTR arithmetic for LD (nn),A / OUT (n),A)
+  n <lines> <bus>                             one more `emulate` from the state left by the previous request
+  m <lines> <bus>                             the same with `Variant.code`
+  t                                           the eight flag lookup tables of Extracted/Z80Tables.lean (hex)
+
+  <state> = 19 hex tokens: pc sp af bc de hl af' bc' de' hl' ix iy ir mp q lq ff im ap
+            ff: bit0 IFF1, bit1 IFF2, bit2 halted, bit3 skip_interrupt; im 0..2; ap 0 none 1 CB 2 DD 3 ED 4 FD
+  <seed>  = hex; memory not listed in <mem> holds memDefault seed addr, port reads beyond <io> ioDefault seed port k
+  <lines> = bit0 INT active, bit1 NMI active;  <bus> = byte answered by read_interrupt
+  <io>    = hex bytes answered by successive port reads, or "-"
+  <mem>   = addr:hexbytes[,addr:hexbytes...] or "-"; addr*count:byte repeats one byte
+
+  response: <state> | <bus events in call order>
+    M<addr>:<clk> wait_mreq   N<addr>:<clk> wait_no_mreq   I<clk> wait_internal
+    R<addr>:<v> read_internal W<addr>:<v> write_internal   i<port>:<v> read_io  o<port>:<v> write_io
+    K<v> read_interrupt       T reti      H<0|1> halt      P<addr> pc_callback
+-/
+namespace Driver.C01
+open ZxVerif.Z80
+
+def memDefault (seed : Nat) (a : BitVec 16) : BitVec 8 :=
+  BitVec.ofNat 8 (a.toNat * 167 + (a.toNat / 256) * 29 + seed * 59 + 53)
+
+def ioDefault (seed : Nat) (p : BitVec 16) (k : Nat) : BitVec 8 :=
+  BitVec.ofNat 8 ((p.toNat % 256) * 31 + (p.toNat / 256) * 17 + seed * 7 + k * 13 + 90)
+
+structure St where
+  cpu : Cpu := {}
+  bus : RecBus := { mem := fun _ => 0 }
+
+def apOfNat : Nat → APfx
+  | 1 => .cb | 2 => .dd | 3 => .ed | 4 => .fd | _ => .none
+
+def apToNat : APfx → Nat
+  | .none => 0 | .cb => 1 | .dd => 2 | .ed => 3 | .fd => 4
+
+def parseCpu : List String → Option (Cpu × List String)
+  | pc :: sp :: af :: bc :: de :: hl :: af' :: bc' :: de' :: hl' :: ix :: iy :: ir :: mp :: q :: lq ::
+      ff :: im :: ap :: rest =>
+    let w (s : String) : BitVec 16 := bv16 s
+    let ffn := hexNatD ff
+    some ({ a := hi (w af), f := lo (w af), b := hi (w bc), c := lo (w bc), d := hi (w de), e := lo (w de),
+            h := hi (w hl), l := lo (w hl), a' := hi (w af'), f' := lo (w af'), b' := hi (w bc'),
+            c' := lo (w bc'), d' := hi (w de'), e' := lo (w de'), h' := hi (w hl'), l' := lo (w hl'),
+            ixh := hi (w ix), ixl := lo (w ix), iyh := hi (w iy), iyl := lo (w iy),
+            i := hi (w ir), r := lo (w ir), sp := w sp, pc := w pc, memptr := w mp,
+            q := bv8 q, lastQ := bv8 lq,
+            iff1 := ffn % 2 = 1, iff2 := (ffn / 2) % 2 = 1, halted := (ffn / 4) % 2 = 1,
+            skipInt := (ffn / 8) % 2 = 1, im := hexNatD im % 3, activePrefix := apOfNat (hexNatD ap) }, rest)
+  | _ => none
+
+def showCpu (s : Cpu) : String :=
+  let ff := (if s.iff1 then 1 else 0) + (if s.iff2 then 2 else 0) + (if s.halted then 4 else 0) +
+    (if s.skipInt then 8 else 0)
+  String.intercalate " "
+    [hex16 s.pc, hex16 s.sp, hex16 s.af, hex16 s.bc, hex16 s.de, hex16 s.hl,
+     hex16 (mk16 s.a' s.f'), hex16 (mk16 s.b' s.c'), hex16 (mk16 s.d' s.e'), hex16 (mk16 s.h' s.l'),
+     hex16 s.ix, hex16 s.iy, hex16 s.ir, hex16 s.memptr, hex8 s.q, hex8 s.lastQ,
+     toHex 1 ff, toHex 1 s.im, toHex 1 (apToNat s.activePrefix)]
+
+def showEv : Ev → String
+  | .mreq a c => "M" ++ hex16 a ++ ":" ++ toHex 1 c
+  | .nomreq a c => "N" ++ hex16 a ++ ":" ++ toHex 1 c
+  | .internal c => "I" ++ toHex 1 c
+  | .rd a v => "R" ++ hex16 a ++ ":" ++ hex8 v
+  | .wr a v => "W" ++ hex16 a ++ ":" ++ hex8 v
+  | .ior p v => "i" ++ hex16 p ++ ":" ++ hex8 v
+  | .iow p v => "o" ++ hex16 p ++ ":" ++ hex8 v
+  | .iack v => "K" ++ hex8 v
+  | .reti => "T"
+  | .halt on => if on then "H1" else "H0"
+  | .pccb a => "P" ++ hex16 a
+
+/-- `addr:hexbytes,addr:hexbytes` → association list, later entries win;
+`addr*count:byte` repeats one byte -/
+def parseMem (s : String) : List (BitVec 16 × BitVec 8) :=
+  if s = "-" then [] else
+  (s.splitOn ",").foldl (fun acc part =>
+    match part.splitOn ":" with
+    | [a, bytes] =>
+      let (base, bs) :=
+        match a.splitOn "*" with
+        | [a0, n] => (bv16 a0, List.replicate (hexNatD n) (bv8 bytes))
+        | _ => (bv16 a, hexBytes bytes)
+      (bs.zipIdx.map fun (v, k) => (base + BitVec.ofNat 16 k, v)).reverse ++ acc
+    | _ => acc) []
+
+def mkBus (seed : Nat) (lines : Nat) (busByte : BitVec 8) (io : String) (mem : String) : RecBus :=
+  let ov := parseMem mem
+  { mem := fun a => match ov.lookup a with | some v => v | none => memDefault seed a,
+    io := if io = "-" then [] else hexBytes io,
+    ioDefault := ioDefault seed,
+    int := lines % 2 = 1, nmi := (lines / 2) % 2 = 1, busByte := busByte }
+
+def respond (sb : Cpu × RecBus) : String :=
+  showCpu sb.1 ++ " | " ++ String.intercalate " " (sb.2.trace.map showEv)
+
+def stepFrom (v : Variant) (cpu : Cpu) (bus : RecBus) : St × String :=
+  let sb := emulate v (cpu, bus)
+  ({ cpu := sb.1, bus := sb.2 }, respond sb)
+
+def load (v : Variant) (args : List String) (s : St) : St × String :=
+  match parseCpu args with
+  | some (cpu, [seed, lines, busB, io, mem]) =>
+    stepFrom v cpu (mkBus (hexNatD seed) (hexNatD lines) (bv8 busB) io mem)
+  | _ => (s, "bad-op")
+
+def next (v : Variant) (lines busB : String) (s : St) : St × String :=
+  let l := hexNatD lines
+  stepFrom v s.cpu { s.bus with log := [], int := l % 2 = 1, nmi := (l / 2) % 2 = 1, busByte := bv8 busB }
+
+def handle (s : St) : List String → St × String
+  | "x" :: args => load .hw args s
+  | "c" :: args => load .code args s
+  | ["n", lines, busB] => next .hw lines busB s
+  | ["m", lines, busB] => next .code lines busB s
+  | ["t"] =>
+    -- the committed copy of the flag lookup tables (Extracted/Z80Tables.lean), for the textual tie
+    let ts := [Extracted.halfCarryAdd, Extracted.halfCarrySub, Extracted.overflowAdd, Extracted.overflowSub,
+               Extracted.parity, Extracted.f3f5, Extracted.szf3f5, Extracted.szpf3f5]
+    (s, String.intercalate " " (ts.map bytesHex))
+  | _ => (s, "bad-op")
+
+def proto : Driver.Proto := { σ := St, init := {}, handle := handle }
 
 end Driver.C01
